@@ -14,7 +14,9 @@ from core import slit, clist, blit
 IMPORTS = "Require Import PW.model.Debug."
 TOKEN = "S3CR3T-T0K3N"
 OVERRIDES = [None, "", "On", "on", "ON", "oN", "Off", "off", "OFF", "yes",
-             " on", "1", "true"]
+             " on", "1", "true",
+             # parts and neighbours of the word: only the whole word counts
+             "o", "n", "N", "O", "onn", "no", "of", "0", "false"]
 
 
 def opt(s):
@@ -223,6 +225,13 @@ def run(ctx):
                 return app
 
             def env_for(path, **kw):
+                # what the client says it accepts must not change what an
+                # error page discloses
+                accept = rng.choice([None, "application/json", "text/html",
+                                     "application/json, */*;q=0.1", "*/*"])
+                if accept is not None:
+                    kw["headers"] = dict(kw.get("headers") or {},
+                                         Accept=accept)
                 env = environ(method=method, path=path, **kw)
                 os.environ.pop("poor_Debug", None)
                 if via_os:
